@@ -1,0 +1,13 @@
+//go:build !verif
+
+package iobroker
+
+/*
+ * verif_off.go
+ * Verification hook, compiled out without -tags verif
+ */
+
+import "context"
+
+// verifPoint does nothing in normal builds.
+func verifPoint(context.Context, string, sDirection, string) {}
